@@ -646,6 +646,9 @@ class Interp:
             x, y = zint(a), zint(b)
             t = {ast.Lt: x < y, ast.LtE: x <= y, ast.Gt: x > y, ast.GtE: x >= y}[type(op)]
             return wrap_bool(t)
+        if isinstance(a, PySet) and isinstance(b, PySet):
+            ka, kb = {key_of(x) for x in a.items}, {key_of(x) for x in b.items}
+            return {ast.Lt: ka < kb, ast.LtE: ka <= kb, ast.Gt: ka > kb, ast.GtE: ka >= kb}[type(op)]
         if ops.is_concrete_scalar(a) and ops.is_concrete_scalar(b):
             try:
                 return {ast.Lt: a < b, ast.LtE: a <= b, ast.Gt: a > b, ast.GtE: a >= b}[type(op)]
